@@ -1,4 +1,5 @@
 import Tw.Model.ServerBrowse
+import Tw.Model.ServerBrowseEnc
 import Tw.Proofs.Packer
 import Tw.Proofs.ServerBrowse
 import Tw.Proofs.ServerBrowseMerge
@@ -11,8 +12,6 @@ open Tw.Gen.Browse
 open Tw.Packer (readString readInt writeInt inI32)
 
 /-! ### strings -/
-
-def putStr (s rest : List UInt8) : List UInt8 := s ++ 0 :: rest
 
 theorem readString_putStr : ∀ (s rest : List UInt8), (∀ b ∈ s, b ≠ 0) → readString (putStr s rest) = some (s, rest)
   | [], rest, _ => by simp [putStr, readString]
@@ -49,17 +48,10 @@ theorem utf8Valid_ascii : ∀ (s : List UInt8), (∀ b ∈ s, b.toNat < 128) →
     have := h b List.mem_cons_self
     simp [this, utf8Valid_ascii s (fun x hx => h x (List.mem_cons_of_mem _ hx))]
 
-def digit (n : Nat) : UInt8 := UInt8.ofNat (48 + n % 10)
-
 theorem digit_toNat (n : Nat) : (digit n).toNat = 48 + n % 10 := by
   unfold digit
   rw [UInt8.toNat_ofNat']
   omega
-
-/-- decimal digits of `n` (fuel `> n` suffices) -/
-def natDigits : Nat → Nat → List UInt8
-  | 0, _ => []
-  | f + 1, n => if n < 10 then [digit n] else natDigits f (n / 10) ++ [digit n]
 
 theorem digitsVal_append : ∀ (l r : List UInt8) (acc : Nat),
     digitsVal (l ++ r) acc = (digitsVal l acc).bind (digitsVal r)
@@ -98,10 +90,6 @@ theorem natDigits_spec : ∀ (f n : Nat), n < f →
         · exact ih.2.2 b hb
         · simp only [List.mem_singleton] at hb
           rw [hb, digit_toNat]; omega
-
-/-- decimal text of an `i32` as a server prints it (`%d`) -/
-def decimal (v : Int) : List UInt8 :=
-  if v < 0 then 45 :: natDigits (v.natAbs + 1) v.natAbs else natDigits (v.toNat + 1) v.toNat
 
 theorem decimal_bytes (v : Int) : ∀ b ∈ decimal v, b.toNat < 128 ∧ b ≠ 0 := by
   intro b hb
@@ -157,12 +145,6 @@ theorem readIntV5_decimal (v : Int) (h : inI32 v) (rest : List UInt8) :
   unfold readIntV5
   rw [readString_putStr _ _ (fun b hb => (decimal_bytes v b hb).2)]
   simp [utf8Valid_ascii _ (fun b hb => (decimal_bytes v b hb).1), parseI32_decimal v h]
-
-/-- integer field of kind `k`: varint for 0.7, decimal text + NUL otherwise -/
-def putInt (k : InfoKind) (v : Int) (rest : List UInt8) : List UInt8 :=
-  match k with
-  | .info7 => writeInt v ++ rest
-  | _ => putStr (decimal v) rest
 
 theorem reader_putInt (k : InfoKind) (v : Int) (h : inI32 v) (rest : List UInt8) :
     k.reader (putInt k v rest) = some (v, rest) := by
@@ -242,16 +224,6 @@ structure ClientOk (k : InfoKind) (c : ClientInfo) : Prop where
       (if k.received.version.hasFullClientFlags = true then inI32 c.flags else (c.flags = 0 ∨ c.flags = 1))
   plain : k.received.version.hasExtendedPlayerInfo = false → c.clan = [] ∧ c.country = -1 ∧ c.flags = 0
 
-def encClient (k : InfoKind) (c : ClientInfo) (rest : List UInt8) : List UInt8 :=
-  let ver := k.received.version
-  putStr c.name
-    ((if ver.hasExtendedPlayerInfo then fun r => putStr c.clan (putInt k c.country r) else id)
-      (putInt k c.score
-        ((if ver.hasExtendedPlayerInfo then
-            (if ver.hasFullClientFlags then putInt k c.flags else putInt k (if c.flags = 1 then 0 else 1))
-          else id)
-          ((if ver.hasExtraInfo then putStr [] else id) rest))))
-
 theorem readClient_encClient (k : InfoKind) (c : ClientInfo) (h : ClientOk k c) (rest : List UInt8) :
     readClient k.reader k.received.version (encClient k c rest) = .client c rest := by
   obtain ⟨hname, hscore, hext, hplain⟩ := h
@@ -288,10 +260,6 @@ theorem readClient_encClient (k : InfoKind) (c : ClientInfo) (h : ClientOk k c) 
     | (rcases hflags with rfl | rfl <;>
        simp [Reader.andThen, Reader.ret, hs, hc, hco, he, i0, i1, truncated_good hname, truncated_good hclan,
          CLIENTINFO_FLAG_SPECTATOR])
-
-def encClients (k : InfoKind) : List ClientInfo → List UInt8 → List UInt8
-  | [], rest => rest
-  | c :: cs, rest => encClient k c (encClients k cs rest)
 
 theorem readClient_nil (ri : Reader Int) (ver : Version) : readClient ri ver [] = .stop := by
   simp [readClient, readStr, readString]
@@ -383,9 +351,6 @@ theorem encClients_length (k : InfoKind) : ∀ (cs : List ClientInfo), cs.length
 @[simp] theorem maxClients_v6Ex : Version.v6Ex.maxClients = none := by decide
 @[simp] theorem maxClients_v7 : Version.v7.maxClients = some MAX_CLIENTS_7 := by decide
 
-/-- `i32` value a server sends for a `u32` crc -/
-def crcWire (c : Nat) : Int := if c < 2 ^ 31 then (c : Int) else (c : Int) - 2 ^ 32
-
 theorem crcWire_inI32 {c : Nat} (h : c < 2 ^ 32) : inI32 (crcWire c) := by
   unfold crcWire inI32; split <;> constructor <;> omega
 
@@ -416,21 +381,6 @@ structure HeadOk (k : InfoKind) (i : ServerInfo) (offset : Nat) : Prop where
   plainCounts : k.received.version.hasExtendedPlayerInfo = false →
     i.numClients = i.numPlayers ∧ i.maxClients = i.maxPlayers
   offset : if k.received.version.hasOffset = true then offset < 2 ^ 31 else offset = 0
-
-/-- the fields between the token and the clients of a normal info, in wire order -/
-def encHead (k : InfoKind) (i : ServerInfo) (offset : Nat) (rest : List UInt8) : List UInt8 :=
-  let ver := k.received.version
-  putStr i.version <| putStr i.name <|
-  (if ver.hasHostname then putStr (i.hostname.getD []) else id) <|
-  putStr i.map <|
-  (if ver.hasExtendedMapInfo then
-      fun r => putInt k (crcWire (i.mapCrc.getD 0)) (putInt k ((i.mapSize.getD 0 : Nat) : Int) r) else id) <|
-  putStr i.gameType <| putInt k i.flags <|
-  (if ver.hasProgression then putInt k (i.progression.getD 0) else id) <|
-  (if ver.hasSkillLevel then putInt k (i.skillLevel.getD 0) else id) <|
-  putInt k i.numPlayers <| putInt k i.maxPlayers <|
-  (if ver.hasExtendedPlayerInfo then fun r => putInt k i.numClients (putInt k i.maxClients r) else id) <|
-  (if ver.hasOffset then putInt k (offset : Int) else id) rest
 
 set_option linter.unusedSimpArgs false in
 set_option maxHeartbeats 1000000 in
@@ -521,22 +471,6 @@ theorem parseHeadNormal_encHead (k : InfoKind) (hk : k ≠ .info6ExMore) (i : Se
     try (rw [if_neg]; all_goals first | rfl | omega)
 
 /-! ### whole datagram payloads -/
-
-/-- the `received` mask the parser gives a packet of kind `k` with `n` clients from slot `offset` -/
-def maskFor (k : InfoKind) (offset n : Nat) : Nat :=
-  match k with
-  | .info6Ex => 1
-  | .info664 => rangeMask offset n
-  | _ => 0
-
-/-- payload of a normal (non-`iex+`) info packet of kind `k` -/
-def encInfo (k : InfoKind) (i : ServerInfo) (offset : Nat) : List UInt8 :=
-  putInt k i.token
-    (encHead k i offset ((if k.received.version.hasExtraInfo then putStr [] else id) (encClients k i.clients [])))
-
-/-- payload of an `iex+` packet -/
-def encMore (token : Int) (no : Nat) (cs : List ClientInfo) : List UInt8 :=
-  putInt .info6ExMore token (putInt .info6ExMore (no : Int) (putStr [] (encClients .info6ExMore cs [])))
 
 theorem serverInfo_eta (i : ServerInfo) : { i with clients := i.clients } = i := by cases i; rfl
 
@@ -694,6 +628,175 @@ theorem parse_encodePart (hs : SLOT_SKIP_FROM = RECEIVED_BITS) (hg : PACKET_NO_R
       have hlt := (hno i hi).2
       rw [parsePartial_encMore hs (by omega) f.hdr.token hh.token (f.no i) (by omega) (by omega) (f.chunk i) hcl]
       simp [exPart, hne]
+
+end Family
+
+/-! ### soundness of the executable checkers -/
+
+theorem goodStrB_sound {cap : Nat} {s : List UInt8} (h : goodStrB cap s = true) : GoodStr cap s := by
+  unfold goodStrB at h
+  simp only [Bool.and_eq_true, List.all_eq_true, bne_iff_ne, ne_eq, decide_eq_true_eq] at h
+  exact ⟨h.1.1, h.1.2, h.2⟩
+
+theorem inI32B_sound {v : Int} (h : inI32B v = true) : inI32 v := by
+  unfold inI32B at h
+  simp only [Bool.and_eq_true, decide_eq_true_eq] at h
+  exact h
+
+theorem clientOkB_sound {k : InfoKind} {c : ClientInfo} (h : clientOkB k c = true) : ClientOk k c := by
+  unfold clientOkB at h
+  simp only [Bool.and_eq_true] at h
+  obtain ⟨⟨h1, h2⟩, h3⟩ := h
+  refine ⟨goodStrB_sound h1, inI32B_sound h2, ?_, ?_⟩
+  · intro he
+    simp only [he, if_true, Bool.and_eq_true] at h3
+    refine ⟨goodStrB_sound h3.1.1, inI32B_sound h3.1.2, ?_⟩
+    by_cases hf : k.received.version.hasFullClientFlags = true
+    · simp only [hf, if_true] at h3 ⊢
+      exact inI32B_sound h3.2
+    · simp only [hf, if_false, Bool.false_eq_true, Bool.or_eq_true, beq_iff_eq] at h3 ⊢
+      exact h3.2
+  · intro he
+    simp only [he, Bool.false_eq_true, if_false, Bool.and_eq_true, beq_iff_eq] at h3
+    exact ⟨h3.1.1, h3.1.2, h3.2⟩
+
+theorem countsSaneB_sound {i : ServerInfo} (h : countsSaneB i = true) : CountsSane i := by
+  unfold countsSaneB at h
+  simp only [Bool.and_eq_true, decide_eq_true_eq] at h
+  obtain ⟨⟨⟨⟨⟨h1, h2⟩, h3⟩, h4⟩, h5⟩, h6⟩ := h
+  refine ⟨h1, h2, h3, h4, h5, ?_⟩
+  intro m hm
+  rw [hm] at h6
+  simpa using h6
+
+theorem headOkB_sound {k : InfoKind} {i : ServerInfo} {offset : Nat} (h : headOkB k i offset = true) :
+    HeadOk k i offset := by
+  unfold headOkB at h
+  simp only [Bool.and_eq_true] at h
+  obtain ⟨⟨⟨⟨⟨⟨⟨⟨⟨⟨⟨⟨⟨⟨hv, ht⟩, h1⟩, h2⟩, h3⟩, h4⟩, h5⟩, hh⟩, hm⟩, hp⟩, hs⟩, hc⟩, hmc⟩, hpl⟩, ho⟩ := h
+  refine ⟨by simpa using hv, inI32B_sound ht, goodStrB_sound h1, goodStrB_sound h2, goodStrB_sound h3,
+    goodStrB_sound h4, inI32B_sound h5, ?_, ?_, ?_, ?_, countsSaneB_sound hc, inI32B_sound hmc, ?_, ?_⟩
+  · split
+    · rename_i hb
+      simp only [hb, if_true] at hh
+      cases hho : i.hostname with
+      | none => simp [hho] at hh
+      | some x => simp only [hho] at hh; exact ⟨x, rfl, goodStrB_sound hh⟩
+    · rename_i hb
+      simp only [hb, if_false, Bool.false_eq_true, Option.isNone_iff_eq_none] at hh
+      exact hh
+  · split
+    · rename_i hb
+      simp only [hb, if_true] at hm
+      cases hc1 : i.mapCrc with
+      | none => simp [hc1] at hm
+      | some c =>
+        cases hc2 : i.mapSize with
+        | none => simp [hc1, hc2] at hm
+        | some sz =>
+          simp only [hc1, hc2, Bool.and_eq_true, decide_eq_true_eq] at hm
+          exact ⟨c, sz, rfl, hm.1, rfl, hm.2⟩
+    · rename_i hb
+      simp only [hb, if_false, Bool.false_eq_true, Bool.and_eq_true, Option.isNone_iff_eq_none] at hm
+      exact hm
+  · split
+    · rename_i hb
+      simp only [hb, if_true] at hp
+      cases hpp : i.progression with
+      | none => simp [hpp] at hp
+      | some x => simp only [hpp] at hp; exact ⟨x, rfl, inI32B_sound hp⟩
+    · rename_i hb
+      simp only [hb, if_false, Bool.false_eq_true, Option.isNone_iff_eq_none] at hp
+      exact hp
+  · split
+    · rename_i hb
+      simp only [hb, if_true] at hs
+      cases hpp : i.skillLevel with
+      | none => simp [hpp] at hs
+      | some x => simp only [hpp] at hs; exact ⟨x, rfl, inI32B_sound hs⟩
+    · rename_i hb
+      simp only [hb, if_false, Bool.false_eq_true, Option.isNone_iff_eq_none] at hs
+      exact hs
+  · intro he
+    simp only [he, Bool.false_eq_true, if_false, Bool.and_eq_true, decide_eq_true_eq] at hpl
+    exact hpl
+  · split
+    · rename_i hb
+      simp only [hb, if_true, decide_eq_true_eq] at ho
+      exact ho
+    · rename_i hb
+      simp only [hb, if_false, Bool.false_eq_true, decide_eq_true_eq] at ho
+      exact ho
+
+/-- the executable test implies the hypotheses of the round-trip theorem -/
+theorem representableB_sound {k : InfoKind} {i : ServerInfo} {offset : Nat} (h : representableB k i offset = true) :
+    k ≠ .info6ExMore ∧ HeadOk k i offset ∧ (∀ c ∈ i.clients, ClientOk k c) ∧
+      (k = .info664 → offset + i.clients.length ≤ RECEIVED_BITS) := by
+  unfold representableB at h
+  simp only [Bool.and_eq_true, bne_iff_ne, ne_eq, List.all_eq_true] at h
+  obtain ⟨⟨⟨hk, hh⟩, hc⟩, hs⟩ := h
+  refine ⟨hk, headOkB_sound hh, fun c hc' => clientOkB_sound (hc c hc'), ?_⟩
+  intro hk'
+  simp only [hk', beq_self_eq_true, if_true, decide_eq_true_eq] at hs
+  exact hs
+
+theorem representableMoreB_sound {token : Int} {no : Nat} {cs : List ClientInfo}
+    (h : representableMoreB token no cs = true) :
+    inI32 token ∧ 1 ≤ no ∧ no < 64 ∧ ∀ c ∈ cs, ClientOk .info6ExMore c := by
+  unfold representableMoreB at h
+  simp only [Bool.and_eq_true, decide_eq_true_eq, List.all_eq_true] at h
+  exact ⟨inI32B_sound h.1.1.1, h.1.1.2, h.1.2, fun c hc => clientOkB_sound (h.2 c hc)⟩
+
+/-! ### every well-formed family that passes the executable test is encodable -/
+
+theorem HeadOk.with_offset_664 {i : ServerInfo} {o : Nat} (h : HeadOk .info664 i o) (o' : Nat) (ho : o' < 2 ^ 31) :
+    HeadOk .info664 i o' :=
+  ⟨h.ver, h.token, h.version, h.name, h.map, h.gameType, h.flags, h.hostname, h.mapInfo, h.progression, h.skill,
+    h.counts, h.maxClients, h.plainCounts, by rw [if_pos (by decide)]; exact ho⟩
+
+theorem ClientOk.more_of_ex {c : ClientInfo} (h : ClientOk .info6Ex c) : ClientOk .info6ExMore c :=
+  ⟨h.name, h.score, h.ext, h.plain⟩
+
+namespace Family
+
+/-- executable: header and every client of the family fit the wire -/
+def representableB (f : Family) : Bool :=
+  headOkB (if f.ex then .info6Ex else .info664) f.hdr 0 &&
+    f.chunks.all (fun cs => cs.all (clientOkB (if f.ex then .info6Ex else .info664)))
+
+theorem chunk_mem (f : Family) {i : Nat} (hi : i < f.size) : f.chunk i ∈ f.chunks := by
+  unfold chunk size at *
+  simp [List.getD_eq_getElem?_getD, List.getElem?_eq_getElem hi]
+
+/-- **General encodability.** A well-formed family whose header and clients pass the executable test
+is `Encodable`, so `roundtrip_family_parts` applies to it. -/
+theorem encodable_of_representableB (f : Family) (hwf : f.WellFormed) (h : f.representableB = true) : f.Encodable := by
+  unfold representableB at h
+  simp only [Bool.and_eq_true, List.all_eq_true] at h
+  obtain ⟨hh, hc⟩ := h
+  have hhead := headOkB_sound hh
+  constructor
+  · intro i hi
+    cases hex : f.ex with
+    | true => simp only [hex, if_true] at hhead ⊢; exact hhead
+    | false =>
+      simp only [hex, Bool.false_eq_true, if_false] at hhead ⊢
+      apply hhead.with_offset_664
+      have h1 := hwf.2.2.2.2.2 hex
+      have h2 : f.offset i + (f.chunk i).length ≤ f.offset f.size := f.offset_mono hi
+      rw [f.offset_size] at h2
+      have : RECEIVED_BITS = 64 := rfl
+      omega
+  · intro i hi c hcm
+    have hok := clientOkB_sound (hc _ (f.chunk_mem hi) c hcm)
+    unfold kind
+    cases hex : f.ex with
+    | false => simp only [hex, Bool.false_eq_true, if_false] at hok ⊢; exact hok
+    | true =>
+      simp only [hex, if_true] at hok ⊢
+      split
+      · exact hok
+      · exact hok.more_of_ex
 
 end Family
 
